@@ -41,7 +41,7 @@ def gen_cases(rng, tier, count=None):
 def run_case(case):
     m = VroomMon()
     try:
-        ctx = drive(case, [m])
+        ctx = drive(case, [m], own=PROP)
     finally:
         m._remove()
     return result_of(ctx, [m], prefix=PROP, nontrivial=lambda ctx, res: res["obs"].get("vroom_pulls_checked", 0) >= 50)
